@@ -1018,3 +1018,80 @@ class GridClipDataKinds(Contract):
 
 
 CONTRACTS = CONTRACTS + [GridClipDataKinds]
+
+
+class ObjectCopyCapture(Contract):
+    """summary of ObjectBase.copy for Points.copy: records what it is given, returns the new object."""
+    target = "geoh5py/objects/object_base.py::ObjectBase.copy"
+    symbolic = False
+    props = ()
+    seen = {}
+
+    def apply(self, I, args, kwargs):
+        self.seen.clear()
+        self.seen.update(kwargs)
+        I.event("object-copy", entity=args[0])
+        return AbsObj("new-object", {})
+
+
+class PointsCopyMasked(Contract):
+    """Points.copy with a mask: the copy is built from exactly the selected vertices in order (and every
+    selected one), the mask and the other options reach the generic copy unchanged (the data follow the
+    same mask there), the source's vertices are not modified; a mask that has not one entry per vertex is
+    refused before anything is copied; without a mask nothing is selected."""
+    target = "geoh5py/objects/points.py::Points.copy"
+    props = ("C07", "C12", "C13")
+    attr_overrides = {"vertices": lambda I, obj: obj.fields["_vertices"]}
+    trusted = ("Points.vertices getter returns the stored array",)
+    uses = (ObjectCopyCapture,)
+
+    def cases(self):
+        return ["mask-of-the-right-length", "mask-of-another-length", "no-mask"]
+
+    def setup(self, ctx):
+        from geoh5py.objects import Points
+
+        n = ctx.int("n", 1)
+        V = sym_arr("vertices", (n.e, 3), "real")
+        V.frozen = True
+        length = n.e if ctx.case != "mask-of-another-length" else ctx.int("mask_length", 0).e
+        if ctx.case == "mask-of-another-length":
+            ctx.assume(length != n.e)
+        M = None if ctx.case == "no-mask" else sym_arr("mask", (length,), "bool")
+        me = Obj(Points, {"_vertices": V})
+        parent = AbsObj("target-parent", {})
+        ObjectCopyCapture.seen.clear()
+        ctx.env.update(V=V, M=M, n=n, parent=parent, me=me)
+        return [me], {"parent": parent, "copy_children": True, "clear_cache": False, "mask": M}
+
+    def post(self, ctx, result):
+        e = ctx.env
+        seen = ObjectCopyCapture.seen
+        if ctx.case == "mask-of-another-length":
+            ctx.oblige("a-mask-without-one-entry-per-vertex-is-refused", False, note="the copy went ahead")
+            return
+        ctx.oblige("parent-and-options-reach-the-generic-copy-unchanged", seen.get("parent") is e["parent"] and seen.get("copy_children") is True and seen.get("clear_cache") is False and seen.get("mask") is e["M"])
+        mutated = [p for k, p in ctx.path.events if k == "mutate" and p.get("frozen")]
+        ctx.oblige("the-sources-vertices-are-not-modified", not mutated)
+        W = seen.get("vertices")
+        if ctx.case == "no-mask":
+            ctx.oblige("without-a-mask-no-selection-is-made", W is None)
+            return
+        ok = isinstance(W, Arr) and W.ndim == 2
+        ctx.oblige("the-copy-is-given-the-selected-vertices", ok and getattr(W, "sel", None) is not None)
+        if not ok or getattr(W, "sel", None) is None:
+            return
+        _, keep, pos, rank = W.sel
+        i, j, c = z3.Int(fresh_name("i")), z3.Int(fresh_name("j")), z3.Int(fresh_name("c"))
+        mm = Z(W.shape[0])
+        ctx.oblige("exactly-the-selected-vertices-in-order", z3.Implies(z3.And(i >= 0, i < mm, c >= 0, c < 3), z3.And(W.elem(i, c) == e["V"].elem(pos(i), c), e["M"].elem(pos(i)))))
+        ctx.oblige("every-selected-vertex-is-kept", z3.Implies(z3.And(j >= 0, j < e["n"].e, e["M"].elem(j)), z3.And(rank(j) < mm, pos(rank(j)) == j)))
+
+    def post_raises(self, ctx, sig):
+        if ctx.case == "mask-of-another-length":
+            ctx.oblige("refused-with-ValueError-before-anything-is-copied", sig.exc_class is ValueError and not [k for k, p in ctx.path.events if k == "object-copy"], kind="post-exc")
+        else:
+            ctx.oblige("a-valid-masked-copy-is-not-refused", False, kind="post-exc", note=f"{sig.exc_class.__name__} at {sig.origin}")
+
+
+CONTRACTS = CONTRACTS + [ObjectCopyCapture, PointsCopyMasked]
